@@ -57,6 +57,8 @@ def write_pkg(root, name, case, namespace=False):
         open(os.path.join(pk, "__init__.py"), "w").close()
     for i, mod in enumerate(case["mods"], start=1):
         src = ['import sys', '_drv = sys.modules["__main__"]', '']
+        if (i + len(case["mods"])) % 2 == 0:
+            src.append('__all__ = []        # what "from module import *" exports is of no concern to the selector')
         if mod["imp"] == "fails":
             src.append('raise RuntimeError("this module fails to import")')
         for j, c in enumerate(mod["classes"], start=1):
